@@ -1,8 +1,11 @@
 /-
   Calc.Exec.FloatFmt — the two std routines the executable kernel needs and Lean's core lacks:
   `f64::from_str` (correctly rounded decimal → binary64) and `Display for f64` (shortest digits
-  that read back, no exponent form).  Exact `Nat` arithmetic throughout.  Executable only: no
-  theorem mentions these; the `fmt` correspondence stream compares them with Rust on every run.
+  that read back, no exponent form).  Exact `Nat` arithmetic throughout, core Lean only (the
+  driver links this file).  Theorems: `decimalToBits` is correctly rounded
+  (Calc.Proofs.DecimalRound), `shortestDigits` / `fmtBits` read back to the same bits
+  (Calc.Proofs.ShortestRoundTrip, Calc.Proofs.FmtText); properties in Calc.Props.C04Round.  The
+  `fmt` correspondence stream also compares both routines with Rust on every run.
 -/
 namespace Calc.Exec
 
@@ -17,89 +20,133 @@ def divRoundEven (num den : Nat) : Nat :=
   let r := num % den
   if 2 * r > den then q + 1 else if 2 * r < den then q else (if q % 2 = 0 then q else q + 1)
 
+/-- the fraction `num/den · 2^s` as a pair (numerator, denominator) -/
+def scalePow2 (num den : Nat) (s : Int) : Nat × Nat :=
+  if s ≥ 0 then (num * 2 ^ s.toNat, den) else (num, den * 2 ^ (-s).toNat)
+
+/-- the shift `s` with `⌊num/den · 2^s⌋` in `[2^52, 2^53)` (estimate from the bit lengths, within one,
+    then corrected) -/
+def normShift (num den : Nat) : Int :=
+  let s0 : Int := 52 - ((Nat.log2 num : Int) - (Nat.log2 den : Int))
+  let p := scalePow2 num den s0
+  if p.1 / p.2 ≥ 2 ^ 53 then s0 - 1 else if p.1 / p.2 < 2 ^ 52 then s0 + 1 else s0
+
+/-- round-half-even of `num/den · 2^s` -/
+def roundScaled (num den : Nat) (s : Int) : Nat :=
+  divRoundEven (scalePow2 num den s).1 (scalePow2 num den s).2
+
+/-- pack a rounded significand `q ∈ [2^52, 2^53]` with biased exponent `be ≥ 1` -/
+def packNormal (q : Nat) (be : Int) : UInt64 :=
+  let q' : Nat := if q ≥ 2 ^ 53 then q / 2 else q
+  let be' : Int := if q ≥ 2 ^ 53 then be + 1 else be
+  if be' ≥ 2047 then 0x7FF0000000000000
+  else ((be'.toNat <<< 52) + (q' - 2 ^ 52)).toUInt64
+
+/-- bits of the binary64 nearest to the positive rational `num/den` (ties to even) -/
+def ratToBits (num den : Nat) : UInt64 :=
+  let s := normShift num den
+  -- biased exponent of a normal result
+  let be : Int := 52 - s + 1023
+  if be ≤ 0 then
+    -- subnormal (or rounds up to the smallest normal): q = round(v · 2^1074)
+    (roundScaled num den 1074).toUInt64
+  else packNormal (roundScaled num den s) be
+
 /-- bits of the binary64 nearest to `m · 10^e` (ties to even), as `f64::from_str` returns -/
 def decimalToBits (m : Nat) (e : Int) : UInt64 :=
   if m = 0 then 0 else
   let nd : Int := decDigits m
   if nd + e > 310 then 0x7FF0000000000000 else
   if nd + e < -330 then 0 else
-  let num : Nat := if e ≥ 0 then m * pow10 e.toNat else m
-  let den : Nat := if e ≥ 0 then 1 else pow10 (-e).toNat
-  -- position of the leading bit of the quotient, within one
-  let l : Int := (Nat.log2 num : Int) - (Nat.log2 den : Int)
-  -- s: we want q = num·2^s/den in [2^52, 2^53)
-  let scaled (s : Int) : Nat × Nat := if s ≥ 0 then (num * 2 ^ s.toNat, den) else (num, den * 2 ^ (-s).toNat)
-  let s0 : Int := 52 - l
-  let (n0, d0) := scaled s0
-  let s : Int := if n0 / d0 ≥ 2 ^ 53 then s0 - 1 else if n0 / d0 < 2 ^ 52 then s0 + 1 else s0
-  -- biased exponent of a normal result
-  let be : Int := 52 - s + 1023
-  if be ≤ 0 then
-    -- subnormal (or rounds up to the smallest normal): q = round(v · 2^1074)
-    let (n1, d1) := scaled 1074
-    (divRoundEven n1 d1).toUInt64
-  else
-    let (n1, d1) := scaled s
-    let q := divRoundEven n1 d1
-    let (q, be) := if q ≥ 2 ^ 53 then (q / 2, be + 1) else (q, be)
-    if be ≥ 2047 then 0x7FF0000000000000
-    else ((be.toNat <<< 52) + (q - 2 ^ 52)).toUInt64
+  ratToBits (if e ≥ 0 then m * pow10 e.toNat else m) (if e ≥ 0 then 1 else pow10 (-e).toNat)
 
-/-- floor(log10(num/den)) for a positive rational -/
-def floorLog10 (num den : Nat) : Int := Id.run do
+/-- `10^p ≤ num/den` -/
+def geP10 (num den : Nat) (p : Int) : Bool :=
+  if p ≥ 0 then pow10 p.toNat * den ≤ num else den ≤ num * pow10 (-p).toNat
+
+/-- floor(log10(num/den)) for a positive rational: an under-estimate from the bit lengths, then
+    up to eight corrections upwards -/
+def floorLog10 (num den : Nat) : Int :=
   let est : Int := (((Nat.log2 num : Int) - (Nat.log2 den : Int)) * 30103) / 100000 - 2
-  let ge (p : Int) : Bool := -- 10^p ≤ num/den
-    if p ≥ 0 then pow10 p.toNat * den ≤ num else den ≤ num * pow10 (-p).toNat
-  let mut p := est
-  for _ in [0:8] do
-    if ge (p + 1) then p := p + 1
-  return p
+  (List.range 8).foldl (fun p _ => if geP10 num den (p + 1) then p + 1 else p) est
 
-/-- shortest decimal `(digits, k)` with value `digits · 10^k` that rounds to the given positive
-    finite double, closest to it among the shortest -/
-def shortestDigits (bits : UInt64) : Nat × Int := Id.run do
+/-- a positive finite double as exact fractions over the common denominator `D`, in units of a
+    quarter ulp: the value `vn/D`, the midpoints `ln/D`, `hn/D` to its two neighbours, whether the
+    midpoints themselves round to it (even significand), and `p = ⌊log10 value⌋` -/
+structure SDCtx where
+  vn : Nat
+  hn : Nat
+  ln : Nat
+  D : Nat
+  incl : Bool
+  p : Int
+
+def sdCtx (bits : UInt64) : SDCtx :=
   let e := ((bits >>> 52) &&& 0x7FF).toNat
   let frac := (bits &&& 0xFFFFFFFFFFFFF).toNat
   let m : Nat := if e = 0 then frac else 2 ^ 52 + frac
   let ex : Int := if e = 0 then -1074 else (e : Int) - 1075
-  let boundary := frac = 0 && e > 1
-  -- all quantities over the common denominator D, in units of a quarter ulp
+  let boundary : Bool := frac = 0 && e > 1
   let u : Nat := if ex - 2 ≥ 0 then 2 ^ (ex - 2).toNat else 1
   let D : Nat := if ex - 2 ≥ 0 then 1 else 2 ^ (2 - ex).toNat
   let vn := 4 * m * u
-  let hn := vn + 2 * u
-  let ln := vn - (if boundary then u else 2 * u)
-  let incl := m % 2 = 0
-  let p := floorLog10 vn D
-  let mut best : Nat × Int := (0, 0)
-  let mut found := false
-  for n in [1:18] do
-    if !found then
-      let k : Int := p - ((n : Int) - 1)
-      -- candidate c·10^k as a fraction cn/cd over denominator D: compare c·10^k·D with bounds
-      let scaleN : Nat := if k ≥ 0 then pow10 k.toNat else 1
-      let scaleD : Nat := if k ≥ 0 then 1 else pow10 (-k).toNat
-      -- c_lo = floor(v / 10^k) = floor(vn·scaleD / (D·scaleN))
-      let clo := (vn * scaleD) / (D * scaleN)
-      let inside (c : Nat) : Bool :=
-        let x := c * scaleN * D      -- compare x / scaleD with ln, hn
-        if incl then ln * scaleD ≤ x && x ≤ hn * scaleD else ln * scaleD < x && x < hn * scaleD
-      let dist (c : Nat) : Nat :=
-        let x := c * scaleN * D
-        let y := vn * scaleD
-        if x ≥ y then x - y else y - x
-      let okLo := clo > 0 && inside clo
-      let okHi := inside (clo + 1)
-      if okLo && okHi then
-        best := (if dist clo < dist (clo + 1) then clo else clo + 1, k); found := true   -- a tie goes up, as in core::num::flt2dec
-      else if okLo then best := (clo, k); found := true
-      else if okHi then best := (clo + 1, k); found := true
-  -- strip trailing zeros
-  let mut (c, k) := best
-  for _ in [0:20] do
-    if c ≠ 0 && c % 10 = 0 then
-      c := c / 10; k := k + 1
-  return (c, k)
+  { vn := vn, hn := vn + 2 * u, ln := vn - (if boundary then u else 2 * u), D := D,
+    incl := decide (m % 2 = 0), p := floorLog10 vn D }
+
+/-- is `c · scaleN / scaleD` inside the rounding interval? (compare `c·scaleN·D / scaleD` with `ln`, `hn`) -/
+def sdInside (x : SDCtx) (scaleN scaleD c : Nat) : Bool :=
+  let y := c * scaleN * x.D
+  if x.incl then x.ln * scaleD ≤ y && y ≤ x.hn * scaleD else x.ln * scaleD < y && y < x.hn * scaleD
+
+/-- `|c · scaleN / scaleD − value|` in units of `1/(D·scaleD)` -/
+def sdDist (x : SDCtx) (scaleN scaleD c : Nat) : Nat :=
+  let y := c * scaleN * x.D
+  let v := x.vn * scaleD
+  if y ≥ v then y - v else v - y
+
+/-- the candidate at decimal exponent `k` (with `scaleN/scaleD = 10^k`), if one of the two multiples
+    of `10^k` bracketing the value lies in the rounding interval -/
+def sdCandAt (x : SDCtx) (k : Int) (scaleN scaleD : Nat) : Option (Nat × Int) :=
+  -- c_lo = floor(v / 10^k) = floor(vn·scaleD / (D·scaleN))
+  let clo := (x.vn * scaleD) / (x.D * scaleN)
+  let okLo := clo > 0 && sdInside x scaleN scaleD clo
+  let okHi := sdInside x scaleN scaleD (clo + 1)
+  if okLo && okHi then
+    -- a tie goes up, as in core::num::flt2dec
+    some (if sdDist x scaleN scaleD clo < sdDist x scaleN scaleD (clo + 1) then clo else clo + 1, k)
+  else if okLo then some (clo, k)
+  else if okHi then some (clo + 1, k)
+  else none
+
+/-- the candidate with `n` significant digits -/
+def sdCand (x : SDCtx) (n : Nat) : Option (Nat × Int) :=
+  let k : Int := x.p - ((n : Int) - 1)
+  sdCandAt x k (if k ≥ 0 then pow10 k.toNat else 1) (if k ≥ 0 then 1 else pow10 (-k).toNat)
+
+/-- strip trailing zeros (at most `fuel` of them) -/
+def stripZeros : Nat → Nat → Int → Nat × Int
+  | 0, c, k => (c, k)
+  | fuel + 1, c, k => if c ≠ 0 && c % 10 = 0 then stripZeros fuel (c / 10) (k + 1) else (c, k)
+
+/-- the first digit count `1 … 17` with a candidate -/
+def sdSearch (x : SDCtx) : Option (Nat × Int) := (List.range' 1 17).findSome? (sdCand x)
+
+/-- shortest decimal `(digits, k)` with value `digits · 10^k` that rounds to the given positive
+    finite double, closest to it among the shortest -/
+def shortestDigits (bits : UInt64) : Nat × Int :=
+  match sdSearch (sdCtx bits) with
+  | some (c, k) => stripZeros 20 c k
+  | none => (0, 0)
+
+/-- the positional text (no exponent form) of `c · 10^k`, `c` written with `Nat.toDigits 10` -/
+def fmtDigits (c : Nat) (k : Int) : List Char :=
+  let ds := Nat.toDigits 10 c
+  if k ≥ 0 then ds ++ List.replicate k.toNat '0'
+  else
+    let nfrac := (-k).toNat
+    if ds.length > nfrac then
+      ds.take (ds.length - nfrac) ++ '.' :: ds.drop (ds.length - nfrac)
+    else '0' :: '.' :: (List.replicate (nfrac - ds.length) '0' ++ ds)
 
 /-- `format!("{}", x)` for an `f64` given by its bits -/
 def fmtBits (bits : UInt64) : String :=
@@ -110,14 +157,6 @@ def fmtBits (bits : UInt64) : String :=
     let sign := if neg then "-" else ""
     if mag = 0x7FF0000000000000 then sign ++ "inf"
     else if mag = 0 then sign ++ "0"
-    else
-      let (c, k) := shortestDigits mag
-      let ds := toString c
-      if k ≥ 0 then sign ++ ds ++ String.ofList (List.replicate k.toNat '0')
-      else
-        let nfrac := (-k).toNat
-        if ds.length > nfrac then
-          sign ++ (ds.take (ds.length - nfrac)).toString ++ "." ++ (ds.drop (ds.length - nfrac)).toString
-        else sign ++ "0." ++ String.ofList (List.replicate (nfrac - ds.length) '0') ++ ds
+    else sign ++ String.ofList (fmtDigits (shortestDigits mag).1 (shortestDigits mag).2)
 
 end Calc.Exec
